@@ -276,3 +276,17 @@ PROPS["C19"] = {
     "trusted": ["Go's time package is the reference for the calendar model (differential)"],
     "assumptions": ["instants are compared as (Unix seconds, nanoseconds); monotonic clock readings and zone names are not part of an instant"],
 }
+
+EMU_NOTE = "Trusted: Coq kernel; hand-written event-level model of xsensemulator/emulator.go (validated by correspondence); the frame model of C02; harness (drives a real emulator deterministically through a port that reports when the receive loop is idle). No axioms."
+PROPS["C18"] = {
+    "level_text": "Theorems (Props/C18.v), by induction over every event history from any state: Transmit writes nothing and reports not-in-measurement-mode outside measurement mode, refuses a frame that is not wf_frame (C02) with the validation failure, writes a wf_frame exactly once unchanged; every event either sets the mode (go-to-measurement / send-mode switch: measuring; go-to-config / set-output-configuration: not) or leaves it, hence measuring <-> the most recent mode-affecting event is go-to-measurement or the switch; only well-formed frames ever reach the port. Correspondence: bounded-exhaustive histories over the seven event kinds plus random longer ones on a real emulator.",
+    "level_note": EMU_NOTE,
+    "technique": "Rocq proof (induction over event histories) over a Gallina state machine + bounded-exhaustive / random differential correspondence",
+    "props_file": "Props/C18.v",
+    "eval_modules": ["Run.EvalEmu"],
+    "imports": ["XS.Model.Emulator"],
+    "kinds": {"emu": {"type": "case_emu", "chk": "chk_emu", "sig": "sig_emu", "scope": "N_scope"}},
+    "rule": "every history of length 1..4 (thorough 5) over {go-to-config, set-output-configuration, go-to-measurement, unrelated command, send-mode switch, transmit(valid), transmit(malformed: bad checksum / cut in the header / LEN disagreeing with size / bad preamble / mutated)}, each followed by LastMessageIdentifier and two transmits; random histories of 6..15 events incl. SetOutputConguration, MarshalMessage probes and a corrupted incoming command (the receive loop returns). Observables: frames written per step, Transmit's error class, mode register. non-trivial = a frame was transmitted or refused / longer histories; distinct = distinct case terms",
+    "trusted": ["deterministic drive of the receive loop: a frame is fed only when the loop waits for input"],
+    "assumptions": ["events are sequential (C17 covers concurrent use)"],
+}
